@@ -59,25 +59,41 @@ class Driver(GenericAdapter):
             return [io.StringIO()] + [self.io.SpooledStringIO(max_size=m) for m in self.maxsizes]
         return [io.BytesIO()] + [self.io.SpooledBytesIO(max_size=m) for m in self.maxsizes]
 
+    spell = 0           # which of the equivalent spellings of a call is used (set per step, the same for every object)
+
     def one(self, f, op, is_std):
         n = op["op"]
+        sp = self.spell
         try:
             if n == "write":
-                f.write(self.enc(op["piece"]))
-                v = []
+                data = self.enc(op["piece"])
+                if sp % 5 == 3 and len(op["piece"]) >= 2:
+                    # the same data through writelines, in two pieces (and an empty one): no separator is added
+                    cut = len(op["piece"]) // 2
+                    f.writelines([self.enc(op["piece"][:cut]), self.empty, self.enc(op["piece"][cut:])])
+                    v = [len(op["piece"])]
+                else:
+                    if sp % 5 == 4:
+                        if f.write(self.empty) != 0:          # an empty write changes nothing and reports 0
+                            return {"e": "ok", "v": [-2]}
+                    w_ = f.write(data)
+                    v = [w_ if isinstance(w_, int) and not isinstance(w_, bool) else -1]       # -1: something that is not a count
             elif n == "read":
-                v = self.dec(f.read() if op["n"] == -1 else f.read(op["n"]))
+                v = self.dec((f.read() if sp % 3 == 0 else f.read(-1) if sp % 3 == 1 else f.read(None)) if op["n"] == -1 else f.read(op["n"]))
             elif n == "readline":
                 lim = op.get("n", -1)
-                v = self.dec(f.readline() if lim == -1 and not op.get("explicit") else f.readline(lim))
+                if lim == -1:
+                    v = self.dec(f.readline() if sp % 3 == 0 and not op.get("explicit") else f.readline(-1) if sp % 3 == 1 else f.readline(None))
+                else:
+                    v = self.dec(f.readline(lim))
             elif n == "next":
-                v = self.dec(next(f))
+                v = self.dec(f.next() if (not is_std and sp % 2 and hasattr(f, "next")) else next(f))
             elif n == "readlines":
-                v = [self.dec(x) for x in f.readlines()]
+                v = [self.dec(x) for x in (f.readlines() if sp % 4 == 0 else f.readlines(0) if sp % 4 == 1 else f.readlines(-1) if sp % 4 == 2 else f.readlines(None))]
             elif n == "iterate":
                 v = [self.dec(x) for x in f]
             elif n == "seek":
-                v = [f.seek(op["n"])]
+                v = [f.seek(op["n"]) if sp % 3 == 0 else f.seek(op["n"], 0) if sp % 3 == 1 else f.seek(op["n"], os.SEEK_SET)]
             elif n == "seek_end":
                 v = [f.seek(0, 2)]
             elif n == "seek_cur":
@@ -85,11 +101,11 @@ class Driver(GenericAdapter):
             elif n == "seek_back_from_end":
                 v = [f.seek(-op["n"], 2)]
             elif n == "tell":
-                v = [f.tell()]
+                v = [f.pos if (not is_std and sp % 2 and hasattr(type(f), "pos")) else f.tell()]
             elif n == "getvalue":
-                v = self.dec(f.getvalue())
+                v = self.dec(f.buf if (not is_std and sp % 2 and hasattr(type(f), "buf")) else f.getvalue())
             elif n == "len":
-                v = [len(f.getvalue()) if is_std else len(f)]
+                v = [len(f.getvalue()) if is_std else (f.len if sp % 2 and hasattr(type(f), "len") else len(f))]
             else:
                 raise core.MachineryError("op " + n)
             return {"e": "ok", "v": v}
@@ -99,6 +115,7 @@ class Driver(GenericAdapter):
             return {"e": core.exc_name(ex), "v": []}
 
     def step(self, fs, op, variant):
+        self.spell += 1
         rs = [self.one(f, op, i == 0) for i, f in enumerate(fs)]
         return fs, {"r": rs[0], "all": rs}
 
@@ -203,6 +220,10 @@ def record(n, length, seed):
                 f_, r_ = f, drv.one(f, op, is_std)
                 evs.append({"op": op, "r": r_, "obs": drv.obs1(f, is_std, quiet), "quiet": quiet})
                 piece = [rng.choice(units + [10, 1, 1]) for _ in range(rng.randint(1, 6))]
+                if rng.random() < 0.04 and size < 20:
+                    # one long stretch without a line break (longer than the codecs reader's 72-byte first guess)
+                    piece = [rng.choice([1, 1, 2, 3, 13] if flavour == "text" else [1, 2, 3, 4, 13]) for _ in range(rng.randint(80, 160))] + [10, 1]
+                    size -= len(piece) - 6          # does not count against the budget of ordinary pieces
                 op = {"op": "write", "n": 0, "piece": piece}
                 size += len(piece)
             elif c < 0.5:
@@ -224,6 +245,7 @@ def record(n, length, seed):
                 op = {"op": rng.choice(["readline", "next", "readlines", "iterate", "tell", "getvalue", "len", "len", "readline"]), "n": 0, "piece": []}
                 if op["op"] == "readline":
                     op["n"] = rng.choice([-1, -1, -1, 0, 1, 2, 5])       # a limit, 0 included; -1 = none given
+            drv.spell = rng.randint(0, 59)
             r_ = drv.one(f, op, is_std)
             last = i == length - 1
             evs.append({"op": op, "r": r_, "obs": drv.obs1(f, is_std, quiet and not last), "quiet": quiet and not last})
